@@ -248,6 +248,14 @@ def corr(rep, pid, tier, r):
         else:
             if isinstance(got, str):
                 same = a.get('err') == got
+                f3 = (dim == 3 and len(q['inputs'][0]['shape']) == 5 and q['inputs'][0]['shape'][3] == 1)
+                if not same and f3 and 'err' not in a:
+                    # known finding F3: the extension merge of 5-D inputs with a singleton time axis
+                    # fails (AttributeError, or ValueError from the final simplification)
+                    c['skipped'] += 1
+                    rep.failure('from_sequence(…, 3) of 5-D pieces with a singleton time axis raised %s' % got,
+                                {'tag': 'merge:time:5D-inputs-singleton-time/raise:' + got, 'case': case, 'dim': dim})
+                    continue
             else:
                 same = 'err' not in a and a['arr'] == got['arr'] and a['aff'] == got['aff']
         if same:
